@@ -72,11 +72,26 @@ def run(pid, tier, seed, replay):
         proof = C.audit(pid)
         proof["built"] = True
     else:
-        # which part broke? try the driver alone so that the correspondence can still run
+        # which part broke? try the driver alone so that the correspondence can still run, and the property modules
+        # one by one so that the theorems of the modules that still build stay discharged (e.g. the model-level
+        # theorems when only the source-translation tie Props/<pid>Src no longer checks)
         drv_built, _ = C.lake_build(["bpdriver"])
         driver_ok = drv_built
-        proof = {"ok": False, "built": False, "theorems": C.property_theorems(pid), "axioms": {},
-                 "problems": ["lake build failed: " + tail(log)], "log": tail(log, 6000)}
+        ok_mods = []
+        for m in C.property_modules(pid):
+            b, _l = C.lake_build(["BpProofs.Props." + m])
+            if b:
+                ok_mods.append(m)
+        if ok_mods:
+            proof = C.audit(pid, only=ok_mods)
+            proof["built"] = True
+        else:
+            proof = {"built": False, "theorems": C.property_theorems(pid), "axioms": {}, "problems": []}
+        proof["ok"] = False
+        broken = [m for m in C.property_modules(pid) if m not in ok_mods]
+        proof["problems"] = ["lake build failed for BpProofs.Props.%s" % m for m in broken] + \
+                            [p for p in proof["problems"] if not p.startswith("no axiom report")] + ["build log: " + tail(log)]
+        proof["log"] = tail(log, 6000)
     chk.proof = proof
     if tier == "thorough" and built:
         ok_lc, lc_log = leanchecker(pid)
